@@ -85,8 +85,17 @@ def run_cases(mod, sp, specs, log):
     cmp_fn = getattr(mod, 'compare', None)
     oracle = getattr(mod, 'oracle', None)
     oracle_always = getattr(mod, 'ORACLE_ALWAYS', True)
+    state_names = list(getattr(sp.state, 'states', []))
     for s, ln, mv in zip(specs, lines, mvals):
+        before = {k: getattr(sp.state, k) for k in state_names}
         iv = call(mod.run_impl, sp, s)
+        after = {k: getattr(sp.state, k) for k in state_names}
+        if after != before:
+            # global settings monitor (property C20): a library call changed a setting
+            log.setdefault('settings_leaks', []).append(
+                {'line': ln[:200], 'changed': {k: [before[k], after[k]] for k in before if before[k] != after[k]}})
+            for k, v in before.items():
+                setattr(sp.state, k, v)
         if cmp_fn is not None:
             d = cmp_fn(s, iv, mv)
         else:
@@ -280,6 +289,7 @@ def main():
             'tolerances': {'rtol': getattr(mod, 'RTOL', 1e-9), 'atol': getattr(mod, 'ATOL', 1e-11)},
             'implementation': info, 'generated': gen_info,
             'timing': {k: round(v, 2) for k, v in log.items() if isinstance(v, float)},
+            'settings_monitor': {'calls_monitored': len(results), 'leaks': log.get('settings_leaks', [])[:10]},
         },
         'assumptions': list(getattr(mod, 'ASSUMPTIONS', [])) + [
             'the Lean model mirrors the Python/Cython source faithfully; this is tested by the correspondence run, not proved',
